@@ -1998,6 +1998,29 @@ func oracleC16(r *rng, n int, tier string) *oracleResult {
 			t.res.Evaluations += 3
 			t.eval(exCompactHistory(h), fs, nil)
 		}
+		// references into the two built-in meta-schemas (held by every default cache, recursive): what one call learns while walking
+		// them is its own business
+		if gi == 0 {
+			type m = map[string]interface{}
+			mk := func(ref string) *exCall {
+				c := exFromGeneric(m{"file:///ms/root.json": m{"swagger": "2.0", "info": m{"title": "t", "version": "1"}, "paths": m{},
+					"definitions": m{"viaMeta": m{"$ref": ref}, "plain": m{"type": "string"}}}}, "file:///ms/root.json").call("expand_spec", exOpts{})
+				c.InProcess = true
+				return c
+			}
+			pool = append(pool, mk("http://swagger.io/v2/schema.json#/definitions/schema"), mk("http://json-schema.org/draft-04/schema#/definitions/positiveInteger"),
+				mk("http://swagger.io/v2/schema.json#/definitions/header"))
+			n := len(pool)
+			h := &exHistory{Pool: pool, History: []int{n - 3, n - 3, n - 2, n - 1, n - 3, n - 1}}
+			fs := checkC16With(h, fresh)
+			for i := range fs {
+				if strings.HasPrefix(fs[i].Shape, "history-changes-result") {
+					fs[i].Shape = "history-changes-result:meta-schema"
+				}
+			}
+			t.res.Evaluations += 5
+			t.eval(exCompactHistory(h), fs, nil)
+		}
 		for hi := 0; hi < perGroup; hi++ {
 			h := &exHistory{Pool: pool}
 			for k := 2 + rg.intn(29); k > 0; k-- {
